@@ -100,37 +100,6 @@ Proof.
 Qed.
 
 (* ---- well-formed NLRI values ---- *)
-Definition chunks3 (l : bytes) : list bytes := chunks (S (length l)) 3 l.
-
-Definition body_matches (k : famkind) (b : nlri_body) : bool :=
-  match k, b with
-  | (Ipv4Unicast | Ipv4Multicast | Ipv6Unicast | Ipv6Multicast), BPrefix _ => true
-  | (Ipv4MplsUnicast | Ipv6MplsUnicast), BMpls _ _ => true
-  | (Ipv4MplsVpnUnicast | Ipv6MplsVpnUnicast), BVpn _ _ _ => true
-  | Ipv4RouteTarget, BRouteTarget _ => true
-  | (Ipv4FlowSpec | Ipv6FlowSpec), BFlow _ => true
-  | L2VpnVpls, BVpls _ _ _ _ _ => true
-  | L2VpnEvpn, BEvpn _ _ => true
-  | _, _ => false
-  end.
-
-Definition wf_body (k : famkind) (b : nlri_body) : bool :=
-  body_matches k b &&
-  match b with
-  | BPrefix x => wf_prefix (fam_v6 k) x
-  | BMpls x l => wf_prefix (fam_v6 k) x && wf_labels (chunks3 l) && Nat.leb (8 * length l + pf_len x) 255
-  | BVpn x l rd => wf_prefix (fam_v6 k) x && wf_labels (chunks3 l) && Nat.eqb (length rd) 8 && wf_bytesb rd &&
-                   Nat.leb (8 * (8 + length l) + pf_len x) 255
-  | BRouteTarget raw => wf_bytesb raw && Nat.leb (length raw) 31
-  | BFlow raw => wf_bytesb raw && Nat.leb (length raw) 4095 && (fam_v6 k || flow_components_ok raw)
-  | BVpls rd ve off sz lb => Nat.eqb (length rd) 8 && wf_bytesb rd && (ve <? 65536) && (off <? 65536) && (sz <? 65536) &&
-                             (lb <? 16777216)
-  | BEvpn ty raw => (ty <? 256) && wf_bytesb raw && Nat.leb (length raw) 255
-  end.
-
-Definition wf_nlri (n : nlri) : bool :=
-  wf_body (n_fam n) (n_body n) && match n_pathid n with Some pid => pid <? 4294967296 | None => true end.
-
 Lemma chunks_concat f l : (length l < f)%nat -> concat (chunks f 3 l) = l.
 Proof.
   revert l. induction f as [|f IH]; intros l Hl; [lia|]. cbn [chunks]. destruct l as [|x l]; [reflexivity|].
@@ -344,11 +313,6 @@ Proof.
 Qed.
 
 (* a concatenation of encoded NLRI decodes to exactly the original sequence, in order *)
-Fixpoint encode_all (l : list nlri) : res bytes :=
-  match l with
-  | [] => Ok []
-  | n :: tl => let* a := compose_nlri n in let* b := encode_all tl in Ok (a ++ b)
-  end.
 
 Lemma compose_nonempty n bs : wf_nlri n = true -> compose_nlri n = Ok bs -> (0 < length bs)%nat.
 Proof.
